@@ -868,7 +868,8 @@ class NPModel(NSModel):
         if name in ("argsort", "argmax", "argmin", "nonzero", "cumsum", "searchsorted"):
             return B("ndarray." + name, lambda *args, **kw: native(getattr(self._concrete(a), name), *args, **kw))
         if name == "ctypes":
-            return I.Opaque("ndarray.ctypes")
+            # arr.ctypes.data_as(T) / arr.ctypes.data: the pointer is modelled as a CPtr carrying the array itself (identity = address)
+            return NSModel("ndarray.ctypes", {"data_as": B("ctypes.data_as", lambda t=None: CPtr(a)), "data": CPtr(a)})
         raise I.Unsupported("ndarray attribute %s" % name)
 
     def scalar_attr(self, v, name):
@@ -897,6 +898,25 @@ class NPModel(NSModel):
         if name in ("numerator", "denominator") and isinstance(v, (int, Q)):
             return getattr(v, name)
         raise I.Unsupported("scalar attribute %s" % name)
+
+
+class CPtr(object):
+    """A C pointer obtained from a numpy array: carries the array (so callee contracts can read / write its buffer)."""
+
+    def __init__(self, arr):
+        self.arr = arr
+
+    def __repr__(self):
+        return "<cptr to array %s>" % (self.arr.shape,)
+
+
+def ctypes_model():
+    I = _imp()
+    B = I.Builtin
+    ident = lambda name: B("ctypes." + name, lambda x=0: x)
+    return NSModel("ctypes", {"c_void_p": ident("c_void_p"), "c_int": ident("c_int"), "c_double": ident("c_double"), "c_size_t": ident("c_size_t"),
+                              "c_long": ident("c_long"), "c_char_p": ident("c_char_p"), "byref": B("ctypes.byref", lambda x: x),
+                              "POINTER": B("ctypes.POINTER", lambda t: t), "Structure": I.Opaque("ctypes.Structure"), "CDLL": I.Opaque("ctypes.CDLL")})
 
 
 class MaskedSel(object):
